@@ -613,8 +613,11 @@ func (x *Exec) specEqual(env *Env, l, r Value, e *Expr) *Term {
 		case Scalar:
 			return Eq(st.scalarTerm(a, b.Ty), b.T)
 		case PtrV:
-			if a.Ref != nil && b.Ref != nil && a.Root == b.Root {
-				return Eq(a.Ref, b.Ref)
+			if a.Ref != nil && b.Ref != nil {
+				if a.Root == b.Root {
+					return Eq(a.Ref, b.Ref)
+				}
+				return TFalse // interior pointers to different fields are different addresses
 			}
 		}
 	case TupleV:
